@@ -1079,7 +1079,7 @@ class NF:
         from . import norm
         import copy as _copy
         stmts = real_body(m)
-        if _computed_spelling(m) and env.cls is not None and not getattr(env, "_canonical", False):
+        if (_computed_spelling(m) or self._unknown_module_names(m, env)) and env.cls is not None and not getattr(env, "_canonical", False):
             # the canonical body (run for the receiver's class) writes both out; as written where that does not evaluate
             try:
                 from .canon import Canon
@@ -1096,6 +1096,21 @@ class NF:
             except Exception:
                 pass
         return self._body_of(m, stmts, env)
+
+    def _unknown_module_names(self, m, env: Env) -> bool:
+        """does the method read private module-level constants the rule tables do not know (named accessors, partial applications,
+        tables added by a refactoring)?  The canonical body writes them in."""
+        try:
+            from .canon import known_defs
+            known = known_defs()
+            dk = next((k_ for k_ in env.cls.mro if isinstance(k_, Class) and m in k_.methods.values()), None)
+            if dk is None:
+                return False
+            mod = dk.module
+            return any(isinstance(n, ast.Name) and n.id.startswith("_") and not n.id.startswith("__") and n.id in mod.assigns
+                       and f"const:{n.id}" not in known and isinstance(mod.assigns[n.id], ast.Call) for n in ast.walk(m))
+        except Exception:
+            return False
 
     def _body_of(self, m, stmts, env: Env):
         from . import norm
